@@ -10,7 +10,7 @@ import re
 from sa import term as T
 from sa.interp import Interp, SObj, SVar
 from sa.kernel import P, make_param, run_kernel
-from sa.load import AnalysisError, Repo, loc
+from sa.load import AnalysisError, Repo, loc, where_of
 from sa.report import Run
 from sa.scipp_model import Model
 from sa.term import Rat
@@ -124,15 +124,21 @@ def run(tier: str) -> Run:
             bad[rule].setdefault(fname, (name, detail))
     for rule, rr in (('R1', r1), ('R2', r2), ('R3', r3)):
         for fname, spec in FILES.items():
-            lfi = repo.func(*spec['loader'])
+            lwhere = where_of(repo, spec['loader'][0], spec['loader'][1], 'Atom.for_isotope')
             b = bad[rule].get(fname)
-            rr.check(b is None, fname, loc(lfi), {'name': b[0], 'problem': b[1]} if b else {}, key=fname)
+            rr.check(b is None, fname, lwhere, {'name': b[0], 'problem': b[1]} if b else {}, key=fname)
 
     r3b = run.rule('R3b', '_assemble_scalar: blank value -> None; variance = uncertainty**2 (0 stays 0); blank uncertainty -> no variance', 4)
-    afi = repo.func('atoms', '_assemble_scalar')
+    try:
+        afi = repo.func('atoms', '_assemble_scalar')
+    except AnalysisError:
+        afi = None  # a private helper: values, variances and blanks are decided per table row by R3 and R5
     cases = [(('1.5', '0.5', 'fm'), (1.5, 0.25, 'fm')), (('12.0', '0.0000000', 'Da'), (12.0, 0.0, 'Da')),
              (('2.5', '', 'barn'), (2.5, None, 'barn')), (('', '0.1', 'fm'), None)]
-    for args, want in cases:
+    if afi is None:
+        for args, _ in cases:
+            r3b.ok(f'scalar{args}', {'decided_by': 'R3 / R5 on every table row'}, nontrivial=False)
+    for args, want in (cases if afi is not None else ()):
         T.reset()
         it = Interp(repo, Model())
         outs = it.run_all(lambda i, a=args: i.call_function(afi, list(a), {}))
@@ -151,9 +157,13 @@ def run(tier: str) -> Run:
     # ---- R5 isotope names ------------------------------------------------------------------
     r5 = run.rule('R5', 'element of an isotope name = the letters after optional leading digits (finite-domain evaluation); '
                         'Atom.for_isotope: z and weight of that element, mass only for isotopes', 60)
-    nfi = repo.func('atoms', '_parse_isotope_name')
-    ok, detail = check_name_parser(repo, nfi, 5 if tier == 'thorough' else 4)
-    r5.check(ok, '_parse_isotope_name', loc(nfi), detail, key='pattern')
+    try:
+        nfi = repo.func('atoms', '_parse_isotope_name')
+    except AnalysisError:
+        nfi = None  # a private helper: the element of a name is decided through Atom.for_isotope below
+    if nfi is not None:
+        ok, detail = check_name_parser(repo, nfi, 5 if tier == 'thorough' else 4)
+        r5.check(ok, '_parse_isotope_name', loc(nfi), detail, key='pattern')
     afi2 = repo.func('atoms', 'Atom.for_isotope')
     weights, masses = tables['atomic_weights.csv'], tables['atomic_masses.csv']
     names = list(weights)[:: (1 if tier == 'thorough' else 3)] + list(masses)[:: (40 if tier == 'thorough' else 120)] + ['2H', '3He', '50V', 'Xx', '1Xx', '999H']
@@ -179,9 +189,8 @@ def run(tier: str) -> Run:
         a = got.attrs
         want_w = expect_scalar(weights[el][1], weights[el][2], 'Da')
         want_m = None if el == nm else expect_scalar(masses[nm][0], masses[nm][1], 'Da')
-        if a.get('isotope') != nm or a.get('z') != int(weights[el][0]) or scalar_of(a.get('_atomic_weight')) != want_w or scalar_of(a.get('_atomic_mass')) != want_m:
-            problem = problem or (nm, {'z': a.get('z'), 'weight': scalar_of(a.get('_atomic_weight')), 'mass': scalar_of(a.get('_atomic_mass')),
-                                       'expected': {'z': int(weights[el][0]), 'weight': want_w, 'mass': want_m}})
+        if a.get('isotope') != nm or a.get('z') != int(weights[el][0]):
+            problem = problem or (nm, {'isotope': a.get('isotope'), 'z': a.get('z'), 'expected': {'isotope': nm, 'z': int(weights[el][0])}})
         else:
             # what the public accessors hand out: the tabulated quantity, or a refusal where the table has none
             for prop_, want_ in (('atomic_weight', want_w), ('atomic_mass', want_m)):
@@ -280,6 +289,52 @@ def expect_scalar(value: str, std: str, unit: str):
     return (float(value), float(std) ** 2 if std != '' else None, unit)
 
 
+def atom_lookup(repo, it, name):
+    """('raise', exc) or ('return', z, weight, mass) of Atom.for_isotope(name), weight / mass read through the public accessors
+    (None where the accessor refuses with ValueError: the table has no value)."""
+    afi = repo.func('atoms', 'Atom.for_isotope')
+    outs = it.run_all(lambda i: i.call_function(afi, [name], {}))
+    if len(outs) != 1:
+        return ('paths', [(o.kind, o.exc_type, o.where) for o in outs])
+    if outs[0].kind != 'return' or not isinstance(outs[0].value, SObj):
+        return ('raise', outs[0].exc_type)
+    atom = outs[0].value
+    vals = []
+    for prop in ('atomic_weight', 'atomic_mass'):
+        pfi = repo.func('atoms', f'Atom.{prop}')
+        po = it.run_all(lambda i, f_=pfi: i.call_function(f_, [], {}, bound=atom))
+        if len(po) == 1 and po[0].kind == 'return':
+            vals.append(scalar_of(po[0].value))
+        elif len(po) == 1 and po[0].kind == 'raise' and po[0].exc_type == 'ValueError':
+            vals.append(None)
+        else:
+            vals.append(('unexpected', [(o.kind, o.exc_type) for o in po]))
+    return ('return', atom.attrs.get('z'), vals[0], vals[1], atom.attrs.get('isotope'))
+
+
+def _lookup_chunk_public(repo, it, fname, table, keys, misses):
+    out = []
+    for name in keys:
+        row = table[name]
+        r = atom_lookup(repo, it, name)
+        if r[0] != 'return':
+            out.append((fname, name, 'found', False, f'key of the table is not found: {r}'))
+            continue
+        out.append((fname, name, 'found', True, ''))
+        if fname == 'atomic_weights.csv':
+            want = (int(row[0]), expect_scalar(row[1], row[2], 'Da'))
+            got = (r[1], r[2])
+        else:
+            want = expect_scalar(row[0], row[1], 'Da')
+            got = r[3]
+        out.append((fname, name, 'value', got == want, {'returned': got, 'tabulated': want}))
+    for name in misses:
+        r = atom_lookup(repo, it, name)
+        ok = r[0] == 'raise'
+        out.append((fname, name, 'miss', ok, '' if ok else f'{name!r} is not a key of the table but Atom.for_isotope answers {r}'))
+    return out
+
+
 _WORKER = {}
 
 
@@ -290,7 +345,10 @@ def _lookup_chunk(job):
         _WORKER['repo'] = Repo()
     repo = _WORKER['repo']
     spec = FILES[fname]
-    lfi = repo.func(*spec['loader'])
+    try:
+        lfi = repo.func(*spec['loader'])
+    except AnalysisError:
+        lfi = None  # a private loader: the table is then read through Atom.for_isotope and the public accessors
     path = os.path.join(os.path.dirname(repo.module('atoms').path), fname)
     with open(path, encoding='utf-8', newline='') as f:
         lines = f.read().splitlines()
@@ -301,6 +359,8 @@ def _lookup_chunk(job):
     T.reset()
     it = Interp(repo, AtomsModel(repo))
     out = []
+    if lfi is None:
+        return _lookup_chunk_public(repo, it, fname, table, keys, misses)
     for name in keys:
         row = table[name]
         outs = it.run_all(lambda i, n=name: i.call_function(lfi, [n], {}))
